@@ -8,6 +8,7 @@ driver for the RemoteStack index model (names and host addresses: alphanumeric t
                                           a stack constructed with caller-supplied, already populated indexes
   initip …                                the same with an IpLocalDevice; createip … = IpRemoteDevice(stack, …)
   create <uid|~> <name|~> <ha|~>          RemoteDevice(stack, …)          → ref <object>
+  setuid r <uid> | setname r <name> | setha r <ha>   the device object is changed directly, behind the stack's back
   add r | move r <uid> | rename r <name> | reha r <ha> | remove r | removeall
 
 reply: `<result> | p=<puid> L=<uid>,<name>,<ha> U=<uid>:<obj>,… N=<name>:<obj>,… H=<ha>:<obj>,… D=<uid>,<name>,<ha>;…`
@@ -100,6 +101,18 @@ def step (s : S) (line : String) : S × String :=
       let s' := initIp defaultName normTok defaultIpHa p u n h
       (s', "ok | " ++ dump s')
     | _, _, _, _ => (s, "bad-op")
+  | ["setuid", r, v] =>
+    match r.toNat?, v.toNat? with
+    | some r, some v => (match tamper s (.setUid r v) with | some s' => (s', "None | " ++ dump s') | none => (s, "bad-op"))
+    | _, _ => (s, "bad-op")
+  | ["setname", r, v] =>
+    match r.toNat?, str? v with
+    | some r, some v => (match tamper s (.setName r v) with | some s' => (s', "None | " ++ dump s') | none => (s, "bad-op"))
+    | _, _ => (s, "bad-op")
+  | ["setha", r, v] =>
+    match r.toNat?, str? v with
+    | some r, some v => (match tamper s (.setHa r v) with | some s' => (s', "None | " ++ dump s') | none => (s, "bad-op"))
+    | _, _ => (s, "bad-op")
   | ws =>
     match op? ws with
     | none => (s, "bad-op")
